@@ -87,6 +87,13 @@ class Spec:
     def print_line(self, text=b"hello"):
         return bytes([6, 0xd1, len(text) + 1, 0]) + text
 
+    def print_text_block(self, lines=(b"hi", b"yo")):
+        """06 D3: TLV container with the receipt type (1F07) and the text lines (25: 07* / 09)"""
+        inner = b"".join(bytes([0x07, len(l)]) + l for l in lines) + bytes([0x09, 1, 1])
+        tlv = bytes([0x1f, 0x07, 1, 1, 0x25, len(inner)]) + inner
+        body = bytes([0x06, len(tlv)]) + tlv
+        return bytes([6, 0xd3, len(body)]) + body
+
     def sysinfo(self, serial=SERIAL, tid="52523535", sw="GER-APP-v2.0.9   ", temp="24.4"):
         body = serial.encode() + sw.encode() + tid.encode() + temp.encode()
         return bytes([6, 0x0f, len(body)]) + body
@@ -255,10 +262,11 @@ class History:
 
     def idle_cleanup(self, pending=None, eod="completion"):
         S, c = self.S, self.cfg
-        self.ex(S.pending_query(), [S.pr_abort(0xb8, 0xFFFF if pending is None else pending)])
+        # progress reports and print-outs may precede every final answer (they are logged and skipped)
+        self.ex(S.pending_query(), [S.print_text_block(), S.pr_abort(0xb8, 0xFFFF if pending is None else pending)])
         if pending is not None:
-            self.ex(S.preauth_reversal(c["cur"], pending), [S.completion()])
-        self.ex(S.end_of_day(c["pw"]), [S.completion()] if eod == "completion" else [S.pr_abort(eod)])
+            self.ex(S.preauth_reversal(c["cur"], pending), [S.print_line(), S.completion()])
+        self.ex(S.end_of_day(c["pw"]), [S.print_text_block(), S.completion()] if eod == "completion" else [S.pr_abort(eod)])
 
     def read_card(self, uuid="04a1b2c3d4e5f6", expect=None):
         S, c = self.S, self.cfg
@@ -276,7 +284,7 @@ class History:
         S, c = self.S, self.cfg
         self.ops.append("commit:%s:%d" % (tok.encode().hex(), final))
         self.ex(S.partial_reversal(receipt, c["cur"], c["amount"] - min(c["amount"], final), tok),
-                [S.status_info({0x27: 0, 0x04: 1234, 0x0B: 77, 0x0C: 93001, 0x0D: 517, 0x29: 52523535}), S.completion()])
+                [S.print_line(), S.status_info({0x27: 0, 0x04: 1234, 0x0B: 77, 0x0C: 93001, 0x0D: 517, 0x29: 52523535}), S.print_text_block(), S.completion()])
         if idle:
             self.idle_cleanup()
         self.exp_results.append("Ok:tid=52523535,amount=1234,trace=77,date=0517,time=093001")
@@ -294,7 +302,7 @@ class History:
         self.ops.append("configure")
         self.ex(S.sysinfo_req(), [S.sysinfo(c["serial"], "00000001")])
         self.ex(S.set_terminal_id(c["pw"], int(c["tid"])), [S.completion()])
-        self.ex(S.initialization(c["pw"]), [S.intermediate(), S.print_line(), S.completion()])
+        self.ex(S.initialization(c["pw"]), [S.intermediate(), S.print_line(), S.print_text_block(), S.completion()])
         self.idle_cleanup()
         self.exp_results.append("Ok")
 
